@@ -371,7 +371,7 @@ fn scenario(ctx: &Ctx, case: u64, out: &mut Out) {
         out.class(format!("{:?}-t{}-a{}", states, trigger_after.as_millis() / 10, acked_total));
     }
     out.class_counter(&format!("states:{:?}", { let mut s: Vec<String> = states.iter().map(|s| format!("{:?}", s)).collect(); s.sort(); s.dedup(); s }));
-    if out.samples.len() < 3 && case % 13 == 4 {
+    if out.samples.len() < 3 && (case % 13 == 4 || out.samples.is_empty()) {
         out.sample(json!({"case": case, "clients": format!("{:?}", states), "trigger_after_ms": trigger_after.as_millis() as u64, "returned_after_us": ret.as_ref().ok(), "acknowledged": acked_total, "sent_without_reply": unacked_total, "ends": results.iter().map(|c| c.end.clone()).collect::<Vec<_>>()}));
     }
     srv.stop();
